@@ -955,11 +955,15 @@ def _threads(ctx: Ctx, rng: SimRng) -> None:
             for k in fields:
                 setattr(g, k, getattr(cold, k))
 
+    shrunk_holder: list[Any] = []
+
     def undo() -> None:
         for g, sv in zip(globs, saved):
             for k, v in sv.items():
                 setattr(g, k, v)
         undo_shim()
+        for m in shrunk_holder:
+            m.__exit__(None, None, None)  # again after the inner exit is harmless: nothing is left to restore
 
     recold()
     try:
@@ -1013,6 +1017,12 @@ def _threads(ctx: Ctx, rng: SimRng) -> None:
                 return real_read(filename)
 
             holder["wl"]._read_wordlist = flaky
+        shrink = ch.pick([0, 0, 1, 2, 3], "threads.shrink")
+        shrunk = st.ShrunkCaches(shrink) if shrink else None
+        if shrunk is not None:
+            shrunk_holder.append(shrunk)
+            shrunk.__enter__()  # tiny caches and memo bounds while the threads run: eviction paths under interleaving
+            ctx.fault("cache-shrink-concurrent", shrink)
         strat_kind = ch.weighted([("pct", 5), ("unif", 3), ("stagger", 2)] if focus != "signers" else [("pct", 2), ("unif", 6), ("stagger", 1)], "strategy")
         strategy: dict[str, Any] = {"kind": strat_kind}
         if strat_kind == "pct":
@@ -1066,6 +1076,8 @@ def _threads(ctx: Ctx, rng: SimRng) -> None:
             sched.run(est_steps=max(est, 10))
         finally:
             SimLock.sched = None
+            if shrunk is not None:
+                shrunk.__exit__(None, None, None)
         ctx.log("threads-done", f"steps={sched.steps}", f"switches={ctx.switches}", strat_kind)
         ctx.trace.extend(sched.switch_trace)
         ctx.sample["switch_trace"] = sched.switch_trace[:30]
